@@ -29,6 +29,7 @@ def handle (args : List String) : String :=
   match args with
   | ["h", fe, evs] => Ndn.Drv.C03.handle [fe, evs]
   | ["g", fe, dflt, bits, route] =>
+    if !Gate.tableOk then "bad-table" else
     let fe? : Option FrontEnd := if fe == "v1" then some .v1 else if fe == "v2" then some .v2 else none
     match fe?, Ndn.Drv.C03.parseVerdict dflt, parseBits bits, parseRoute route with
     | some fe, some d, some p, some r =>
